@@ -21,6 +21,9 @@
 (***************************************************************************)
 EXTENDS Naturals, Sequences, FiniteSets, TLC
 
+\* Mut selects a spec mutant of the generated check (non-vacuity runs); "none" = the real design
+CONSTANT Mut
+
 (* ------------------------------------------------------------------ classes *)
 \* concrete (instantiable) classes of the universe
 AtomCls == {"int", "bool", "str", "float", "complex", "NoneType", "A", "B"}
@@ -116,6 +119,43 @@ HShallow(s)   == H("shallow", s, <<>>, <<>>)             \* Iterator[...], Gener
 HMap(s, hk, hv) == H("map", s, <<hk, hv>>, <<>>)         \* dict Mapping MutableMapping defaultdict OrderedDict
 HCounter(hk)  == H("map", "Counter", <<hk, HCls("int")>>, <<>>)
 HItems(hk, hv) == H("items", "ItemsView", <<hk, hv>>, <<>>)
+HAnn(h, vs)   == H("ann", "", <<h>>, vs)                 \* Annotated[h, V1, ..., Vn], Vi beartype validators
+
+(* --------------------------------------------------------------- validators *)
+\* VV(k, n, a, o): kind, name (predicate / attribute / class), child validators, operand objects
+VV(k, n, a, o) == [k |-> k, n |-> n, a |-> a, o |-> o]
+VIs(p)        == VV("is", p, <<>>, <<>>)                  \* Is[pred]      pred from the catalogue below
+VAttr(n, v)   == VV("isattr", n, <<v>>, <<>>)            \* IsAttr[n, v]
+VEq(x)        == VV("iseq", "", <<>>, <<x>>)             \* IsEqual[x]
+VInst(c)      == VV("isinst", c, <<>>, <<>>)             \* IsInstance[c]
+VSub(c)       == VV("issub", c, <<>>, <<>>)              \* IsSubclass[c]
+VAnd(v, w)    == VV("and", "", <<v, w>>, <<>>)
+VOr(v, w)     == VV("or", "", <<v, w>>, <<>>)
+VNot(v)       == VV("not", "", <<v>>, <<>>)
+
+\* attributes of the user objects:  oa.x = 1   ob.x = "a"   ob.y = oa   (nothing else has x / y)
+HasAttr(x, n) == (x = oa /\ n = "x") \/ (x = ob /\ n \in {"x", "y"})
+AttrOf(x, n)  == IF x = oa THEN i1 ELSE IF n = "x" THEN sa ELSE oa
+
+\* total, side-effect-free predicates usable inside Is[...]
+Pred(p, x) ==
+  CASE p = "truthy" -> (CASE x.k = "atom" -> (IF Numeric(x) THEN x.v # 0 ELSE x.cls # "NoneType")
+                          [] x.k \in {"cont", "map"} -> Len(x.items) > 0
+                          [] OTHER -> TRUE)
+    [] p = "isstr"  -> x.k = "atom" /\ x.cls = "str"
+    [] p = "sized1" -> x.k \in {"cont", "map"} /\ Len(x.items) = 1
+
+\* ordinary boolean meaning of a validator
+RECURSIVE ValSem(_, _)
+ValSem(v, x) ==
+  CASE v.k = "is"     -> Pred(v.n, x)
+    [] v.k = "isattr" -> HasAttr(x, v.n) /\ ValSem(v.a[1], AttrOf(x, v.n))
+    [] v.k = "iseq"   -> PyEq(x, v.o[1])
+    [] v.k = "isinst" -> InstOf(x, v.n)
+    [] v.k = "issub"  -> x.k = "type" /\ SubCls(x.cls, v.n)
+    [] v.k = "and"    -> ValSem(v.a[1], x) /\ ValSem(v.a[2], x)
+    [] v.k = "or"     -> ValSem(v.a[1], x) \/ ValSem(v.a[2], x)
+    [] v.k = "not"    -> ~ValSem(v.a[1], x)
 
 SeqSigns   == {"list", "Sequence", "MutableSequence", "tuple"}
 ReitSigns  == {"set", "frozenset", "AbstractSet", "MutableSet", "Collection", "deque", "KeysView", "ValuesView"}
@@ -156,6 +196,7 @@ Sat(h, x) ==
                              LET p == x.items[i] IN
                              p.k = "cont" /\ p.cls = "tuple" /\ Len(p.items) = 2
                              /\ Sat(h.a[1], p.items[1]) /\ Sat(h.a[2], p.items[2])
+    [] h.k = "ann"  -> Sat(h.a[1], x) /\ \A i \in DOMAIN h.m : ValSem(h.m[i], x)
 
 \* beartype's documented full-depth meaning: as Sat, but Literal is "instance of a member's
 \* type and == a member"
@@ -175,6 +216,7 @@ SatB(h, x) ==
                              LET p == x.items[i] IN
                              p.k = "cont" /\ p.cls = "tuple" /\ Len(p.items) = 2
                              /\ SatB(h.a[1], p.items[1]) /\ SatB(h.a[2], p.items[2])
+    [] h.k = "ann"  -> SatB(h.a[1], x) /\ \A i \in DOMAIN h.m : ValSem(h.m[i], x)
     [] OTHER -> Sat(h, x)
 
 (* --------------------------------------------- violations no sampling can hide *)
@@ -202,6 +244,7 @@ MustReject(h, x) ==
     [] h.k = "items" -> \/ ~InstOf(x, "ItemsView")
                         \/ (Len(x.items) > 0 /\ \A i \in DOMAIN x.items :
                               MustReject(HTupF(h.a), x.items[i]))
+    [] h.k = "ann"  -> MustReject(h.a[1], x) \/ \E i \in DOMAIN h.m : ~ValSem(h.m[i], x)
 
 (* ------------------ an accepted object has >= 1 consistent item per container level *)
 RECURSIVE Weak(_, _)
@@ -219,6 +262,7 @@ Weak(h, x) ==
                            \E i \in DOMAIN x.items : Weak(h.a[1], x.items[i].key) /\ Weak(h.a[2], x.items[i].val))
     [] h.k = "items" -> /\ InstOf(x, "ItemsView")
                         /\ (Len(x.items) = 0 \/ \E i \in DOMAIN x.items : Weak(HTupF(h.a), x.items[i]))
+    [] h.k = "ann"  -> Weak(h.a[1], x) /\ \A i \in DOMAIN h.m : ValSem(h.m[i], x)
     [] OTHER -> SatB(h, x)
 
 (* ------------------------------------------------------------------- Reduce *)
@@ -240,8 +284,26 @@ FlatMembers(hs) ==
 \* index sampled from a sequence of length n for draw r
 Pick(n, r, conf) == IF conf.rnd THEN (r % n) + 1 ELSE 1
 
+\* the code a validator contributes to the generated check (beartype/vale/_core, _is/*):
+\*   Is[f]          f(obj)                      IsEqual[a]     obj == a
+\*   IsInstance[c]  isinstance(obj, c)          IsSubclass[c]  isinstance(obj, type) and issubclass(obj, c)
+\*   IsAttr[n, v]   (tmp := getattr(obj, n, SENTINEL)) is not SENTINEL and <v on tmp>
+\*   v & w          (<v> and <w>)      v | w   (<v> or <w>)      ~v   (not <v>)
+RECURSIVE ValCode(_, _)
+ValCode(v, x) ==
+  CASE v.k = "is"     -> Pred(v.n, x)
+    [] v.k = "isattr" -> HasAttr(x, v.n) /\ ValCode(v.a[1], AttrOf(x, v.n))
+    [] v.k = "iseq"   -> PyEq(x, v.o[1])
+    [] v.k = "isinst" -> InstOf(x, v.n)
+    [] v.k = "issub"  -> x.k = "type" /\ SubCls(x.cls, v.n)
+    [] v.k = "and"    -> IF Mut = "vale_and_as_or" THEN ValCode(v.a[1], x) \/ ValCode(v.a[2], x)
+                         ELSE ValCode(v.a[1], x) /\ ValCode(v.a[2], x)
+    [] v.k = "or"     -> ValCode(v.a[1], x) \/ ValCode(v.a[2], x)
+    [] v.k = "not"    -> IF Mut = "vale_not_first_conjunct" /\ v.a[1].k = "and"
+                         THEN (~ValCode(v.a[1].a[1], x)) /\ ValCode(v.a[1].a[2], x)
+                         ELSE ~ValCode(v.a[1], x)
+
 \* Mut: spec mutants for non-vacuity ("none" = the real design)
-CONSTANT Mut
 
 RECURSIVE ChkR(_, _, _, _)
 ChkR(h, x, r, conf) ==
@@ -283,6 +345,9 @@ ChkR(h, x, r, conf) ==
     [] h.k = "items" ->
          /\ InstOf(x, "ItemsView")
          /\ (Len(x.items) = 0 \/ ChkR(HTupF(h.a), x.items[1], r, conf))
+    [] h.k = "ann"  ->          \* metahint first (elided when ignorable), then every validator's code, and-ed
+         /\ (Ignorable(h.a[1]) \/ ChkR(h.a[1], x, r, conf))
+         /\ \A i \in DOMAIN h.m : ValCode(h.m[i], x)
 
 \* hint overrides / the numeric tower are the first reducer: applied once per occurrence
 Chk(h, x, r, conf) == ChkR(Rewrite(h, conf), x, r, conf)
